@@ -279,9 +279,10 @@ def run(ctx):
     for n in split.node.body:
         if not isinstance(n, ast.For):
             continue
-        if isinstance(n.iter, ast.Call) and isinstance(n.target, ast.Name) and (dotted(n.iter.func) or "").split(".")[-1].startswith("iter_"):
+        if isinstance(n.iter, ast.Call) and isinstance(n.target, ast.Name) and isinstance(n.iter.func, ast.Attribute) \
+                and n.iter.func.attr.startswith("iter_"):
             split_form = "iterator"
-            split_iter = (dotted(n.iter.func) or "").split(".")[-1]
+            split_iter = n.iter.func.attr
             tcv = n.target.id
             inner = n
         elif isinstance(n.iter, ast.Call) and dotted(n.iter.func) == "range" and len(n.body) == 1 and isinstance(n.body[0], ast.For) \
@@ -332,6 +333,16 @@ def run(ctx):
                 for t in m.targets:
                     if isinstance(t, ast.Attribute) and tcv and dotted(t.value) == tcv:
                         reset[t.attr] = v
+            elif isinstance(m, ast.Call) and isinstance(m.func, ast.Attribute) and tcv and dotted(m.func.value) == tcv and not m.args and not m.keywords:
+                # `tc.clear_merge_attrs()`: a method of the cell element that stores constants into its own attributes
+                hm = prog.lookup(tcc, m.func.attr) if tcc is not None else None
+                if hm is not None and all(isinstance(x, (ast.Assign, ast.Expr)) for x in hm.node.body):
+                    for x in hm.node.body:
+                        if isinstance(x, ast.Assign):
+                            v = prog.const(x.value, hm.module)
+                            for t in x.targets:
+                                if isinstance(t, ast.Attribute) and dotted(t.value) == "self":
+                                    reset[t.attr] = v
     if split_form is None:
         ctx.error("_Cell.split", "loop over the merged region not recognised (expected `for tc in <range>.iter_*()` or nested range() loops)")
     cmc = rng.methods.get("contains_merged_cell")
@@ -386,7 +397,9 @@ def run(ctx):
     probs = []
     if set(written) != SPAN_ATTRS:
         probs.append("merge writes %s" % sorted(written))
-    if {k: v for k, v in reset.items()} != NEUTRAL:
+    if split_form is not None and not reset:
+        ctx.error("_Cell.split", "what the loop over the merged region stores into each cell is not recognised")
+    elif {k: v for k, v in reset.items()} != NEUTRAL and split_form is not None:
         probs.append("split resets %s (expected %s)" % (reset, NEUTRAL))
     if set(tested) != SPAN_ATTRS or tested.get("rowSpan") != ">1" or tested.get("gridSpan") != ">1" or not falls_false:
         probs.append("contains_merged_cell tests %s (all-clear returns False: %s)" % (tested, falls_false))
